@@ -1704,6 +1704,11 @@ loop:
 			// connection, so the client must move to a fresh one.
 			atomic.StoreUint32(&c.goAway, 1)
 
+			if verifOn {
+				vCliEv(c, "ga.flag", 0, 0)
+				vCliGate(c, "rl.goaway.flagged", 0)
+			}
+
 			// The server will not process the streams above last-stream-id,
 			// and says so: those requests fail now, with an error that tells
 			// the caller they can be sent again elsewhere. The ones at or
@@ -1719,6 +1724,10 @@ loop:
 				atomic.AddInt32(&c.openStreams, -1)
 				c.deletePending(id)
 				ctx.resolve(ErrGoAwayUnprocessed)
+			}
+
+			if verifOn {
+				vCliEv(c, "ga.swept", 0, 0)
 			}
 
 			if ga.stream == 0 {
